@@ -5,7 +5,7 @@
 (* discipline (C13) and the error locations (C11).                         *)
 (* record == [id, prog, ev]; events:                                       *)
 (*   [ev |-> "load", ok, cls, mp, syn, at, what]   Program.from_source     *)
-(*   [ev |-> "exec_begin", c]                                              *)
+(*   [ev |-> "exec_begin", c, kw]                                              *)
 (*   [ev |-> "ret_run", ok, cls, mp, syn, at, what]                         *)
 (*   [ev |-> "files", n]      files created in the working directory       *)
 (* `at` = <<command index, parameter name or "">> located from the error's *)
@@ -36,9 +36,12 @@ Rejection(e) ==
     ELSE IF ~AtOk(e) THEN "C11.ErrorLine"
     ELSE "ok"
 
+\* execute() of an accepted command receives exactly the arguments that were written (extra ones included where the command allows them)
+KwOk(e) == \A i \in 1..Len(T.prog) : Res(T.prog[i]) = e.c => {e.kw[k] : k \in 1..Len(e.kw)} = ArgNames(T.prog[i])
+
 Judge(e) ==
     CASE e.ev = "load" -> IF e.ok THEN "ok" ELSE Rejection(e)
-      [] e.ev = "exec_begin" -> IF F # {} THEN "C12.ExecBeforeReject" ELSE "ok"
+      [] e.ev = "exec_begin" -> IF F # {} THEN "C12.ExecBeforeReject" ELSE IF ~KwOk(e) THEN "C12.ExecuteArguments" ELSE "ok"
       [] e.ev = "ret_run" ->
             IF e.ok THEN (IF F # {} THEN "C12.AcceptedIllFormed" ELSE "ok")
             ELSE IF nbegin > 0 /\ F = {} THEN (IF ~e.mp /\ ~e.syn THEN "C13.EscapedClass" ELSE "ok")     \* run-time (semantic) failure of a well-formed model
